@@ -51,19 +51,20 @@ TRUSTED_BASE = [
     "the independent RFC 1035 section walker and RFC 8945 composition written in harness/props/C14.py (oracle side)",
 ]
 ASSUMPTIONS = [
-    "HMAC is an opaque function H in every theorem; 'no accepted alteration' (altered_bit_rejected) is proved from the explicit hypothesis that, under the key's secret, only the genuine (MAC input, MAC) pair verifies (unforgeability); request_mac_binding_rejects from explicit collision-freeness; neither is an axiom",
+    "HMAC is an opaque function H in every theorem; 'no accepted alteration' (altered_bit_rejected) is proved from the explicit hypothesis that, under the secrets the keyring can resolve, only the genuine (MAC input, MAC) pair verifies (unforgeability); request_mac_binding_rejects from explicit collision-freeness; neither is an axiom",
     "the reader model is a skeleton: owner names and RDATA of records other than TSIG are skipped, not decoded (C01-C03 cover them); it accepts a superset of what the real reader accepts, so 'rejected or pair changed' transfers; for altered messages only 'accepted as validated' vs not is compared with the code",
-    "name decoding inside the message is re-modelled with explicit fuel (Model.Tsig.nameAt) so the kernel can evaluate the reader; its agreement with dns.name.from_wire_parser is by correspondence only",
-    "the message ID and the ASCII case of the TSIG owner / algorithm names are not authenticated by RFC 8945 (original ID and canonical names are digested); bitflip_changes_input leaves the owner-name and algorithm-name octets as possible hiding places, and that only case changes survive there is established by the tie (every bit of ~100 messages per run), not by a theorem",
+    "name decoding inside the message uses a fuel-driven decoder (so that the kernel can evaluate the reader) which is proved equal to C01's Model.fromWireAux (name_decoding_is_c01), so it rests on lean/Proofs/NameWire.lean; C01's model is tied to dns.name.from_wire_parser by C01's correspondence check",
+    "the message ID and the encodings (case, compression) of the TSIG owner / algorithm names are not authenticated by RFC 8945 (original ID and canonical names are digested); bitflip_changes_input proves that an accepted alteration there leaves the canonical names, hence every digest component, unchanged",
     "an alteration that turns the TSIG RR into a non-TSIG record yields an unsigned message (had_tsig False); rejecting unsigned answers to signed queries is the caller's rule (dns.query / C18), not part of validation",
-    "theorems about the reader are stated for a Key keyring; dict keyrings (bytes or Key values), keyring None/False are covered by correspondence; GSS-TSIG and callable keyrings are outside the model",
-    "reader-level acceptance of what Message.to_wire signed (owner-name and RDATA codec round trip through the section walk) is by correspondence + oracle; the theorem sign_then_validate is at the level of dns.tsig.sign / validate on the rendered octets",
-    "in later envelopes of a multi-message exchange only the timers are digested (RFC 8945 5.3.1), so error/other data of those TSIG RRs are outside every claim; RFC 8945 5.3.1 reading: the prior MAC is digested like a request MAC (with its 2-octet length), as BIND does",
+    "callable keyrings are modelled as functions of the owner name (what a callable does with the message, i.e. GSS-TSIG negotiation, and GSS-TSIG itself are outside the model); in the tie a callable is a finite table",
+    "sign_then_read takes the owner-name encoding as any octet string that reads back as a name equal to the key's (OwnerEncodes; discharged for the uncompressed encoding); that the renderer's compressed encoding is such a string is C01/C03's compression soundness plus this check's correspondence on every rendered message",
+    "in later envelopes of a multi-message exchange only the timers are digested (RFC 8945 5.3.1), so error/other data and the names of those TSIG RRs are outside the 'determined by the MAC input' claim; RFC 8945 5.3.1 reading: the prior MAC is digested like a request MAC (with its 2-octet length), as BIND does",
+    "the retained as-shipped variant of the TTL decision point (strict = false) is kept in the model only to state what the repair 62699df changed; the check probes the working tree and demands correspondence with the current variant",
 ]
 LEVEL = {
-    "text": "Lean 4 theorems over an executable model of dns/tsig.py, the TSIG RDATA codec, the signing tail of Message.to_wire / Renderer._write_tsig and the TSIG part of dns.message._WireReader, HMAC being an arbitrary function: (1) the regenerated algorithm table is exactly RFC 8945 section 6 (names, hashes, truncations, mac_sizes); (2) the octets fed to the MAC equal an independently written RFC 8945 4.3 / 5.3.1 composition for requests, responses bound to a request MAC, and every signed envelope of an exchange with any subset of unsigned intermediates; (3) for every algorithm of the table, what sign produces and Message.to_wire renders is accepted by validate with the same key anywhere in the fudge window; (4) the complete rejection decision list (ARCOUNT 0, TSIG error mapping, time window, key name, algorithm, MAC), misplaced TSIG = BadTSIG; (5) request-MAC binding; (6) acceptance by the reader is sound (the accepted MAC is the HMAC of the RFC components of the received message) and the MAC input determines every octet of the message from 2 up to the TSIG RR and every authenticated TSIG field (the digested string is self-delimiting), hence every single-bit alteration is rejected or changes the (input, MAC) pair unless it lies in the ID, the TSIG owner name, the algorithm name or - as shipped - the TTL of the TSIG RR; with the TTL required to be 0 the TTL exception disappears. Tied to the code by a differential check of the exact octets passed to update(), of every outcome and of the verdict on every single-bit alteration of ~100 signed messages per run; an independent RFC 1035/8945 reference recomputes every MAC with Python's hmac and judges every alteration.",
-    "note": "Trusted: Lean kernel + propext/Classical.choice/Quot.sound; the statements in lean/Props/C14.lean; the harness generators and the independent reference in harness/props/C14.py; Python hmac/hashlib. HMAC strength appears only as explicit hypotheses. Skeleton reader (other records skipped). Recorded finding: the TTL field of the TSIG RR is neither digested nor required to be 0 (model variant asShipped/intended probed at run time; counter-example ttl_bit_accepted_asShipped proved by kernel evaluation).",
-    "technique": "Lean 4 proof (byte-composition equality, decision logic, injectivity of a self-delimiting encoding, positional analysis of single-bit flips) + model-vs-implementation correspondence with recorded MAC input + independent-reference oracle",
+    "text": "Lean 4 theorems over an executable model of dns/tsig.py, the TSIG RDATA codec, Message.use_tsig, the signing tail of Message.to_wire / Renderer._write_tsig and the TSIG part of dns.message._WireReader (Key, dict and callable keyrings), HMAC being an arbitrary function: (1) the regenerated algorithm table is exactly RFC 8945 section 6; (2) the octets fed to the MAC equal an independently written RFC 8945 4.3 / 5.3.1 composition for requests, responses bound to a request MAC, and every signed envelope of an exchange with any subset of unsigned intermediates; (3) sign-render-read: for every algorithm of the table a message signed by the model of to_wire is accepted by validate and by the reader with the same key anywhere in the fudge window, the reader reports the TSIG written and the body signed and hands on the signer's context, and a whole multi-message exchange with any pattern of signed/unsigned envelopes is accepted; (4) the complete rejection decision list, misplaced TSIG = BadTSIG; (5) request-MAC binding; (6) acceptance is sound for every keyring, the MAC input determines every RFC 8945 digest component (message from octet 2, canonical names, times, error, other), hence every single-bit alteration is rejected, or changes the (input, MAC) pair, or lies in the ID / the encodings of the two names with all digest components unchanged; with the TTL repair in, the TTL field is covered; (7) the reader's name decoding equals C01's fromWireAux. Tied to the code by a differential check of the exact octets passed to update(), of every outcome and of the verdict on every single-bit alteration of ~70 signed messages per run; an independent RFC 1035/8945 reference recomputes every MAC with Python's hmac and judges every alteration.",
+    "note": "Trusted: Lean kernel + propext/Classical.choice/Quot.sound; the statements in lean/Props/C14.lean; the harness generators and the independent reference in harness/props/C14.py; Python hmac/hashlib. HMAC strength appears only as explicit hypotheses. Skeleton reader (other records skipped). The TTL finding is repaired in /repo (62699df); the as-shipped variant is retained in the model only for ttl_bit_accepted_in_asShipped_variant.",
+    "technique": "Lean 4 proof (byte-composition equality, decision logic, injectivity of a self-delimiting encoding incl. prefix-freeness of wire names, codec round trips, positional analysis of single-bit flips) + model-vs-implementation correspondence with recorded MAC input + independent-reference oracle",
     "design_ref": "DESIGN.md §7 C14",
 }
 
@@ -360,9 +361,21 @@ def e_ctx(c):
     return f"{HASH_IDS.get(hname, 0)}/{c.size or 0}/{hx(h.key)}/{hx(h.data)}"
 
 
+class CallKR:
+    """a callable keyring `(message, name) -> Key | None` given by a finite table (Name equality lookup)"""
+
+    def __init__(self, table):
+        self.table = dict(table)
+
+    def __call__(self, message, name):
+        return self.table.get(name)
+
+
 def e_keyring(kr):
     if kr is None or kr is True:
         return "absent"
+    if isinstance(kr, CallKR):
+        return "call:" + ";".join(e_name(n) + "=k:" + e_key(v) for n, v in kr.table.items())
     if kr is False:
         return "novalidate"
     if isinstance(kr, dns.tsig.Key):
@@ -419,6 +432,8 @@ def mk_keyring(kind, key, owner=None):
         return {owner or key.name: key}
     if kind == "dict-bytes":
         return {owner or key.name: key.secret}
+    if kind == "callable":
+        return CallKR({owner or key.name: key})
     if kind == "none":
         return None
     if kind == "empty-dict":
@@ -609,6 +624,8 @@ def eval_case(ctx: Ctx, c: dict):
         eval_rdata(ctx, c, rep)
     elif k == "mac":
         eval_mac(ctx, c, rep)
+    elif k == "usetsig":
+        eval_usetsig(ctx, c, rep)
     else:
         raise ValueError(k)
 
@@ -711,7 +728,7 @@ def eval_msg(ctx, c, rep):
         ctx.count("flip.bits", len(v))
 
 
-MUTS = ["secret", "keyname-key", "keyname-dict-missing", "keyname-dict-wrongkey", "algorithm", "time", "request-mac", "tsig-error",
+MUTS = ["secret", "keyname-key", "keyname-dict-missing", "keyname-dict-wrongkey", "keyname-callable-missing", "keyname-callable-wrongkey", "algorithm", "time", "request-mac", "tsig-error",
         "no-keyring", "not-last-extra-rr", "not-last-answer-section", "two-tsigs", "class-not-any", "arcount-zero"]
 
 
@@ -735,6 +752,10 @@ def eval_reject(ctx, c, rep):
         keyring = {dns.name.from_text(c["other_name"]): key.secret}
     elif mut == "keyname-dict-wrongkey":
         keyring = {key.name: dns.tsig.Key(dns.name.from_text(c["other_name"]), key.secret, key.algorithm)}
+    elif mut == "keyname-callable-missing":
+        keyring = CallKR({dns.name.from_text(c["other_name"]): key})
+    elif mut == "keyname-callable-wrongkey":
+        keyring = CallKR({key.name: dns.tsig.Key(dns.name.from_text(c["other_name"]), key.secret, key.algorithm)})
     elif mut == "algorithm":
         keyring = dns.tsig.Key(key.name, key.secret, dns.name.from_text(c["other_alg"]))
     elif mut == "time":
@@ -987,6 +1008,45 @@ def eval_mac(ctx, c, rep):
         fail(ctx, f"C14/mac/mac_sizes/{str(key.algorithm).lower()}", f"mac_sizes[{key.algorithm}] = {dns.tsig.mac_sizes.get(key.algorithm)}, RFC length {len(exp)}", rep)
 
 
+def eval_usetsig(ctx, c, rep):
+    """key and TSIG owner chosen by Message.use_tsig for every keyring shape; then the signed message validates"""
+    keys = [mk_key(k) for k in c["keys"]]
+    shape = c["shape"]
+    names = [dns.name.from_text(n) for n in c["names"]]
+    if shape == "key":
+        kr = keys[0]
+    elif shape == "dict-bytes":
+        kr = {n: k.secret for n, k in zip(names, keys)}
+    elif shape == "dict-key":
+        kr = {n: k for n, k in zip(names, keys)}
+    else:
+        kr = CallKR({n: k for n, k in zip(names, keys)})
+    keyname = None if c["keyname"] is None else dns.name.from_text(c["keyname"])
+    alg = dns.name.from_text(c["alg"])
+    m = mk_message(c["body"])
+    try:
+        m.use_tsig(kr, keyname, algorithm=alg)
+        impl = f"ok {e_key(m.keyring)} {e_name(m.tsig.name)}"
+    except BaseException as e:
+        impl = "err"
+    ctx.corr(f"c14.usetsig {e_keyring(kr)} {'none' if keyname is None else e_name(keyname)} {e_name(alg)}", impl, c)
+    ctx.count("usetsig." + shape + "." + impl.split(" ")[0])
+    if impl.startswith("ok") and m.keyring.name == m.tsig.name:
+        # whoever holds the same keyring validates what was signed with it
+        CLOCK.t = c["now"]
+        try:
+            w = m.to_wire()
+        except BaseException as e:
+            ctx.count("usetsig.to_wire-raises." + type(e).__name__)
+            return
+        vkr = kr if shape != "dict-bytes" or m.keyring.algorithm == alg else kr
+        m2, e, log = lib_read(w, vkr, c["now"], b"", None, False)
+        corr_read(ctx, c, w, vkr, c["now"], b"", "none", False, m2, e, log)
+        if e is not None or not m2.had_tsig:
+            fail(ctx, f"C14/validate/genuine-rejected/keyring-{shape}",
+                 f"a message signed through use_tsig with a {shape} keyring does not validate with the same keyring: {e!r}", rep)
+
+
 # ------------------------------------------------------------------------------------------------
 # generators
 # ------------------------------------------------------------------------------------------------
@@ -1071,7 +1131,7 @@ def gen_msg(rng, flips, alg=None):
     f = p["fudge"]
     c = {"kind": "msg", "key": key, "body": body, "tsig": p, "now": gen_now(rng) + 70000,
          "request_mac": rng.bytes(rng.choice([16, 20, 32, 64, 1])).hex() if rng.chance(1, 2) else "",
-         "keyring": rng.choice(["key", "key", "dict-key", "dict-bytes"]),
+         "keyring": rng.choice(["key", "key", "dict-key", "dict-bytes", "callable"]),
          "deltas": sorted(set([0, rng.choice([f, -f]), rng.choice([f + 1, -f - 1])])),
          "signer": rng.choice(["lib", "lib", "lib", "ref", "renderer"])}
     if flips:
@@ -1198,6 +1258,32 @@ def gen_mac(rng, alg=None):
     return {"kind": "mac", "key": key, "data": rng.bytes(rng.choice([0, 1, 55, 56, 64, 65, 200])).hex()}
 
 
+def gen_usetsig(rng):
+    n = rng.range(1, 3)
+    names = []
+    while len(names) < n:
+        x = gen_name(rng)
+        if x.lower() not in [y.lower() for y in names]:
+            names.append(x)
+    shape = rng.choice(["key", "dict-bytes", "dict-key", "callable"])
+    keys = []
+    for nm in names:
+        k = gen_key(rng)
+        k["name"] = nm if rng.chance(5, 6) else other_name(rng, nm)  # a dict/callable entry whose Key bears another name
+        if shape in ("key", "dict-bytes"):
+            k["name"] = nm
+        keys.append(k)
+    kn = rng.choice([None, names[0], names[-1], names[0].swapcase(), "absent.example."])
+    body = gen_body(rng)
+    body.pop("update", None)
+    if "flags" not in body:
+        body = gen_body(rng, response=False)
+        while body.get("update"):
+            body = gen_body(rng, response=False)
+    return {"kind": "usetsig", "shape": shape, "keys": keys, "names": names, "keyname": kn, "alg": rng.choice(ALGS), "body": body,
+            "now": gen_now(rng)}
+
+
 def case_key(c):
     return json.dumps(c, sort_keys=True)
 
@@ -1226,6 +1312,8 @@ def generate(ctx: Ctx, scale, rng, flips=True):
         go(gen_seq(rng, 0))
     for _ in range(n(8)):
         go(gen_seq(rng, "all" if flips else 0), sample=False)
+    for _ in range(n(120)):
+        go(gen_usetsig(rng))
     for _ in range(n(600)):
         go(gen_fn(rng))
     for _ in range(n(500)):
